@@ -17,9 +17,10 @@ func init() { props["C08"] = runC08 }
 
 // failReader delivers data[:k] and then fails (or ends with EOF).
 type failReader struct {
-	data []byte
-	pos  int
-	fail bool
+	data        []byte
+	pos         int
+	fail        bool
+	eofWithData bool // the read that delivers the last bytes also reports io.EOF (as net/http bodies do)
 }
 
 func (f *failReader) Read(p []byte) (int, error) {
@@ -31,6 +32,9 @@ func (f *failReader) Read(p []byte) (int, error) {
 	}
 	n := copy(p, f.data[f.pos:])
 	f.pos += n
+	if f.eofWithData && !f.fail && f.pos >= len(f.data) {
+		return n, io.EOF
+	}
 	return n, nil
 }
 
@@ -47,7 +51,7 @@ func runC08(c *Ctx) {
 	if c.Thorough() {
 		nCases = 4000
 	}
-	c.R.Rule = fmt.Sprintf("%d upload cases per backend instance and integrity setting drawn from the matrix body (0–3000 B) × Content-MD5 {absent, right, wrong, malformed base64, 15/17-byte digest, empty} × declared length {=, −1, +1, 0, absent, non-numeric, negative} × key length {short, 1023, 1024, 1025} × metadata size {small, limit−1, limit, limit+1} × {plain, aws-chunked with right/wrong decoded length} × {over an existing object, absent key} × reader {EOF, failing after k bytes, k ∈ {0,1,len/2,len−1,len}}; each case snapshots GET+HEAD+listing before and after; compared with the Lean model (Front.createObject) and the specification (acknowledged, or rejected with the snapshot unchanged); non-trivial = distinct case the model rejects", nCases)
+	c.R.Rule = fmt.Sprintf("%d upload cases per backend instance and integrity setting drawn from the matrix body (0–3000 B) × Content-MD5 {absent, right, wrong, malformed base64, 15/17-byte digest, empty} × declared length {=, −1, +1, 0, absent, non-numeric, negative} × key length {short, 1023, 1024, 1025} × metadata size {small, limit−1, limit, limit+1} × {plain, aws-chunked with right/wrong decoded length} × {over an existing object, absent key} × reader {EOF, failing after k bytes, k ∈ {0,1,len/2,len−1,len}}; each case snapshots GET+HEAD+listing before and after; compared with the Lean model (Front.createObject) and the specification (acknowledged, or rejected with the snapshot unchanged); the last bytes arrive with or before io.EOF; then %d part uploads per instance over the matrix body × Content-MD5 × declared length × part number {1, 2, 10000, 10001, 0, junk} against a pending upload (ListParts + the object snapshotted before and after; model Front.uploadPartReq; specification: acknowledged with the MD5 of the bytes iff digest and length are right, otherwise refused and nothing changed); non-trivial = distinct case the model rejects", nCases, nCases/4)
 	for _, kind := range c.kinds(impl.AllKinds) {
 		for _, integ := range []bool{true, false} {
 			limit := 300
@@ -71,6 +75,7 @@ func runC08(c *Ctx) {
 			for i := 0; i < nCases; i++ {
 				c08Case(c, r, inst, bucket, integ, limit)
 			}
+			c08Parts(c, r, inst, bucket, integ, nCases/4)
 			inst.Close()
 		}
 	}
@@ -205,7 +210,7 @@ func c08Case(c *Ctx, r *Runner, inst *impl.Instance, bucket string, integ bool, 
 		}
 		sent = wire[:k]
 	}
-	rq := impl.Req{Method: "PUT", Path: r.path(bucket, key), Body: &failReader{data: sent, fail: tail == "fail"}, Header: hdr, MultiH: multi, NoCL: true}
+	rq := impl.Req{Method: "PUT", Path: r.path(bucket, key), Body: &failReader{data: sent, fail: tail == "fail", eofWithData: c.Rng.Intn(2) == 0}, Header: hdr, MultiH: multi, NoCL: true}
 	clTok := "~"
 	if clVariant != "absent" {
 		rq.Header["Content-Length"] = cl
@@ -265,5 +270,107 @@ func c08Case(c *Ctx, r *Runner, inst *impl.Instance, bucket string, integ bool, 
 	c.hist("answer:" + strings.SplitN(model, " ", 3)[0] + ":" + errKind(model))
 	if len(c.R.Samples) < 5 && spec != "stored" {
 		c.sample(fmt.Sprintf("%s integrity=%v %s size=%d -> %s", kind, integ, variant, sz, obs))
+	}
+}
+
+// c08Parts: the part-upload half of C08
+func c08Parts(c *Ctx, r *Runner, inst *impl.Instance, bucket string, integ bool, n int) {
+	kind := inst.Kind
+	l, o, id := r.MpInit(bucket, "existing", map[string]string{"X-Amz-Meta-Mp": "1"})
+	r.judgeProj(l, o, "setup-mpinit", ident, nil)
+	if id == "" {
+		return
+	}
+	l, o = r.MpPart(bucket, "existing", id, "1", []byte("first-part"), "", nil)
+	r.judgeProj(l, o, "setup-part", ident, nil)
+	snap := func() string {
+		_, po := r.MpParts(bucket, "existing", id, "", "", 0, 1000)
+		_, g := r.Get(bucket, "existing")
+		return po.Obs + " | " + g
+	}
+	for i := 0; i < n; i++ {
+		sz := []int{1, 2, 10, 64, 300}[c.Rng.Intn(5)]
+		body := c.randBytes(sz)
+		sum := md5.Sum(body)
+		md5Variant := []string{"absent", "right", "wrong", "wrong", "malformed", "short", "empty"}[c.Rng.Intn(7)]
+		hdr := map[string]string{}
+		multi := map[string][]string{}
+		md5Class := "A"
+		switch md5Variant {
+		case "right":
+			hdr["Content-MD5"] = base64.StdEncoding.EncodeToString(sum[:])
+			md5Class = "D:" + drv.Hex(sum[:])
+		case "wrong":
+			w := md5.Sum(append([]byte("x"), body...))
+			hdr["Content-MD5"] = base64.StdEncoding.EncodeToString(w[:])
+			md5Class = "D:" + drv.Hex(w[:])
+		case "malformed":
+			hdr["Content-MD5"] = "!!not-base64!!"
+			md5Class = "M"
+		case "short":
+			hdr["Content-MD5"] = base64.StdEncoding.EncodeToString(sum[:15])
+			md5Class = "M"
+		case "empty":
+			multi["Content-MD5"] = []string{""}
+			md5Class = "E"
+		}
+		clVariant := []string{"=", "=", "=", "=", "-1", "+1", "0", "absent", "nonnumeric"}[c.Rng.Intn(9)]
+		cl := fmt.Sprint(len(body))
+		switch clVariant {
+		case "-1":
+			cl = fmt.Sprint(len(body) - 1)
+		case "+1":
+			cl = fmt.Sprint(len(body) + 1)
+		case "0":
+			cl = "0"
+		case "nonnumeric":
+			cl = "12x"
+		}
+		pn := []string{"1", "1", "2", "2", "10000", "10001", "0", "x"}[c.Rng.Intn(8)]
+		ewd := c.Rng.Intn(2) == 0
+		rq := impl.Req{Method: "PUT", Path: r.path(bucket, "existing"), Query: "uploadId=" + id + "&partNumber=" + pn,
+			Body: &failReader{data: body, eofWithData: ewd}, Header: hdr, MultiH: multi, NoCL: true}
+		clTok := "~"
+		if clVariant != "absent" {
+			rq.Header["Content-Length"] = cl
+			clTok = hx(cl)
+		}
+		before := snap()
+		resp := inst.Do(rq)
+		after := snap()
+		obs := errObs(resp)
+		if resp.Status == 200 && resp.Panic == "" {
+			obs = "part " + drv.HexS(strings.Trim(resp.Header.Get("ETag"), `"`))
+		}
+		line := fmt.Sprintf("mppartx %s %s %s %s %s %s %s", hx(bucket), hx("existing"), id, hx(pn), clTok, md5Class, drv.Hex(body))
+		model, spec, err := c.D.Ask(line)
+		if err != nil {
+			panic(err)
+		}
+		r.Lines = append(r.Lines, line)
+		c.R.Evaluations++
+		variant := fmt.Sprintf("part md5=%s cl=%s pn=%s eofWithData=%v", md5Variant, clVariant, pn, ewd)
+		cs := append(append([]string{}, r.Lines[:3]...), line)
+		accepted := strings.HasPrefix(obs, "part ")
+		switch {
+		case obs == "hang" || obs == "panic":
+			c.mismatch(Mismatch{Kind: "spec", Backend: kind, Case: cs, Impl: obs, Model: model, Spec: "an answer", Finger: "c08:part:" + obs, Note: variant})
+		case !accepted && before != after:
+			c.mismatch(Mismatch{Kind: "spec", Backend: kind, Case: cs, Impl: obs + " ; before: " + trunc(before, 200) + " ; after: " + trunc(after, 200), Model: model, Spec: "rejected ⇒ pending upload and object unchanged",
+				Finger: "c08:rejected-part-changed-state", Note: variant})
+		case accepted && spec == "rejected":
+			c.mismatch(Mismatch{Kind: "spec", Backend: kind, Case: cs, Impl: obs, Model: model, Spec: "must be refused (" + model + ")", Finger: "c08:accepted-bad-part", Note: variant})
+		case strings.HasPrefix(spec, "part ") && obs != spec:
+			c.mismatch(Mismatch{Kind: "spec", Backend: kind, Case: cs, Impl: obs, Model: model, Spec: spec, Finger: "c08:rejected-good-part", Note: variant})
+		case obs != model:
+			c.mismatch(Mismatch{Kind: "model", Backend: kind, Case: cs, Impl: obs, Model: model, Spec: spec, Finger: "c08:part-answer", Note: variant})
+		}
+		if accepted != strings.HasPrefix(model, "part ") {
+			return // model and implementation are out of step for this upload
+		}
+		if !strings.HasPrefix(model, "part ") {
+			c.nontrivial(kind + "|" + variant)
+		}
+		c.hist("part-answer:" + errKind(model))
 	}
 }
